@@ -5,10 +5,16 @@ from .quoterlevel import run_quoter_level
 FINISH = dict(rule="R1 MC_Quoters Inv_C04 (a canonical text is a fixed point of both requoter models); R2 replay on the real "
                    "quoters; R3 the full 128 x 6 ASCII policy sweep (literal / %XX / %xx, three contexts, every component incl. "
                    "host) and seeded whole URLs from canonical pools with near misses, both back ends; TLC decides canonicity "
-                   "(CanonicalUrl) and evaluates C04.unchanged; clause_antecedent_hits counts the canonical inputs")
+                   "(CanonicalUrl: reg-name, IPv4 and RFC 5952 / RFC 6874 bracketed hosts) and evaluates C04.unchanged; a second pass "
+                   "constructs every URL of a pool first with only 1..60 stack frames left (a RecursionError at every depth of the "
+                   "call chain, outcomes discarded) and then observes it; clause_antecedent_hits counts the canonical inputs")
 
 
 def run(out, sc, tier, seed):
     run_quoter_level(out, sc, tier, seed, "C04", bounds=({"charcore": 4} if tier == "thorough" else None))
     n = 15000 if tier == "quick" else 120000
     run_progs(out, sc, "C04", {"gen": "canon", "n": n, "seed": seed}, "canon", shard_size=3000)
+    # failed calls are history too: the same pool, each URL first constructed under a RecursionError sweep (outcomes discarded), then observed -- nothing a failed attempt left in a cache may change the result
+    nf = 1500 if tier == "quick" else 20000
+    run_progs(out, sc, "C04", {"gen": "canon", "n": nf, "seed": seed + 77, "no_table": True, "extras": ["faulted"]}, "canon-after-faults",
+              nslices=8, shard_size=3000)
